@@ -1215,6 +1215,7 @@ async fn load_targets(
             max_targets_size,
             delegations,
             datastore,
+            &[],
         )
         .await?;
     }
@@ -1235,10 +1236,19 @@ async fn load_delegations(
     max_targets_size: u64,
     delegation: &mut Delegations,
     datastore: &Datastore,
+    ancestors: &[String],
 ) -> Result<()> {
     let mut delegated_roles: HashMap<String, Option<Signed<crate::schema::Targets>>> =
         HashMap::new();
     for delegated_role in &delegation.roles {
+        // A role that delegates to itself, directly or through its delegates, would be fetched
+        // over and over again.
+        ensure!(
+            !ancestors.contains(&delegated_role.name),
+            error::DelegationCycleSnafu {
+                name: delegated_role.name.clone()
+            }
+        );
         // find the role file metadata
         let role_meta = snapshot
             .signed
@@ -1306,6 +1316,8 @@ async fn load_delegations(
                 })?;
         if let Some(targets) = &mut delegated_role.targets {
             if let Some(delegations) = &mut targets.signed.delegations {
+                let mut chain = ancestors.to_vec();
+                chain.push(delegated_role.name.clone());
                 load_delegations(
                     transport,
                     snapshot,
@@ -1314,6 +1326,7 @@ async fn load_delegations(
                     max_targets_size,
                     delegations,
                     datastore,
+                    &chain,
                 )
                 .await?;
             }
